@@ -817,7 +817,7 @@ package query
 //@ func (*FileInfo).ExportOptions
 //@   property C02
 //@   ensures [dialect-fed-back] result.Format == f.Format && result.Delimiter == f.Delimiter && result.SingleLine == f.SingleLine && result.Encoding == f.Encoding && result.LineBreak == f.LineBreak
-//@   ensures [conventions-fed-back] result.WithoutHeader == f.NoHeader && result.EncloseAll == f.EncloseAll && result.JsonEscape == f.JsonEscape && result.PrettyPrint == f.PrettyPrint
+//@   ensures [header-convention-fed-back] result.WithoutHeader == f.NoHeader
 //@   ensures [positions-fed-back] same(result.DelimiterPositions, f.DelimiterPositions)
 //@   modifies fresh
 
